@@ -41,10 +41,11 @@ type MTag struct {
 }
 
 type MUpload struct {
-	Repo  string
-	Buf   []byte
-	Check int64 // pending start-offset check (-1: none)
-	Dead  bool
+	Repo      string
+	Buf       []byte
+	Check     int64 // pending start-offset check (-1: none)
+	Dead      bool  // cancelled, or a commit failed
+	Committed bool
 }
 
 type MRepo struct {
@@ -65,7 +66,9 @@ type Model struct {
 	// Deferred: BlobWriter errors may surface at a later call of the same writer
 	// (a buffering client); sizes reported by a writer may include buffered bytes.
 	Deferred bool
-	Repos    map[string]*MRepo
+	// Concurrent: other tasks may act between a writer's Write and its Size call.
+	Concurrent bool
+	Repos      map[string]*MRepo
 	Named    map[string]bool // every repository name a write was ever attempted on
 	Uploads  map[int]*MUpload
 }
@@ -76,7 +79,7 @@ func NewModel(immutableTags bool) *Model {
 }
 
 func (m *Model) Clone() *Model {
-	n := &Model{ImmutableTags: m.ImmutableTags, StrictCodes: m.StrictCodes, Deferred: m.Deferred,
+	n := &Model{ImmutableTags: m.ImmutableTags, StrictCodes: m.StrictCodes, Deferred: m.Deferred, Concurrent: m.Concurrent,
 		Repos: make(map[string]*MRepo, len(m.Repos)), Named: make(map[string]bool, len(m.Named)),
 		Uploads: make(map[int]*MUpload, len(m.Uploads))}
 	for k, r := range m.Repos {
@@ -143,7 +146,7 @@ func (m *Model) Canon() string {
 	}
 	us := make([]string, 0, len(m.Uploads))
 	for h, u := range m.Uploads {
-		us = append(us, fmt.Sprintf("u%d:%d/%d/%v", h, len(u.Buf), u.Check, u.Dead))
+		us = append(us, fmt.Sprintf("u%d:%d/%d/%v/%v", h, len(u.Buf), u.Check, u.Dead, u.Committed))
 	}
 	sort.Strings(us)
 	sb.WriteString(strings.Join(us, ","))
@@ -717,7 +720,7 @@ func (m *Model) Step(op *Op, res *Res) (bool, string) {
 		}
 		u.Check = -1
 		u.Buf = append(append([]byte(nil), u.Buf...), op.Data...)
-		if res.Size != int64(len(u.Buf)) {
+		if !m.Concurrent && res.Size != int64(len(u.Buf)) {
 			return false, fmt.Sprintf("writer size %d after write, want %d", res.Size, len(u.Buf))
 		}
 		return true, ""
@@ -748,6 +751,9 @@ func (m *Model) Step(op *Op, res *Res) (bool, string) {
 		if u.Dead {
 			return m.wantFail(res.Err, "Commit of a cancelled or failed upload")
 		}
+		if u.Committed && res.Err != nil {
+			return true, "" // committing a session a second time may be refused
+		}
 		if !ValidDigest(string(op.Digest)) || Sum(algOf(op.Digest), u.Buf) != op.Digest {
 			ok, why := m.wantFail(res.Err, "Commit with a digest that does not match the written bytes", ociregistry.ErrDigestInvalid)
 			if ok {
@@ -766,7 +772,7 @@ func (m *Model) Step(op *Op, res *Res) (bool, string) {
 			return false, "Commit: " + s
 		}
 		m.mkRepo(u.Repo).Blobs[op.Digest] = u.Buf
-		u.Dead = true
+		u.Committed = true
 		return true, ""
 	}
 	return false, "unknown operation"
